@@ -412,7 +412,8 @@ fn apply_parent_ready(
     if &new_hash == parent_hash {
         debug!("parent is ready, continuing with same parent");
     } else {
-        assert_ne!(&new_slot, parent_slot);
+        // NOTE: the ready parent can be a different block of the same slot,
+        // if the previous leader equivocated and we optimistically built on the other one
         debug!(
             "changed parent from {} in slot {} to {} in slot {}",
             parent_hash.short_hex(),
